@@ -92,7 +92,7 @@ PARSER_OBS = ("binlogEvent_Format,binlogEvent_Rotate,binlogEvent_Query,binlogEve
               "GetStatementCategory,appendInsertEventFromRows,appendUpdateEventFromRows,appendDeleteEventFromRows,newError,Error_msgf,"
               "Streamer_binlogPosition,StatementType_String,NewMysqlTableName")
 runs['parser'] = {'pkg': '.', 'func': 'Streamer.parseEvents', 'observer': PARSER_OBS,
-                  'ifacetag': 'replication.BinlogEvent=replication.mysql56BinlogEvent', 'min_obligations': 1000, 'wall': 900}
+                  'ifacetag': 'replication.BinlogEvent=replication.mysql56BinlogEvent', 'min_obligations': 1000, 'wall': 900, 'timeout': 45}
 for n, f in [('conn-read', 'slaveConnection.readBinlogEvent'), ('conn-reader', 'slaveConnection.startDumpFromBinlogPosition$1'),
              ('conn-new', 'newSlaveConnection'), ('conn-dump', 'slaveConnection.startDumpFromBinlogPosition'),
              ('stream', 'Streamer.Stream'), ('stream-error', 'Streamer.Error')]:
@@ -319,16 +319,17 @@ runs['gtid-ev56'] = {'func': 'mysql56BinlogEvent.GTID'}
 runs['gtid-evmaria'] = {'func': 'mariadbBinlogEvent.GTID'}
 runs['gtid-iv-contains'] = {'func': 'interval.contains'}
 runs['gtid-56-containsgtid'] = {'func': 'Mysql56GTIDSet.ContainsGTID', 'ifacetag': 'replication.GTID=replication.Mysql56GTID'}
+runs['gtid-56-add'] = {'func': 'Mysql56GTIDSet.AddGTID', 'ifacetag': 'replication.GTID=replication.Mysql56GTID'}
 runs['gtid-maria-contains'] = {'func': 'MariadbGTIDSet.ContainsGTID', 'ifacetag': 'replication.GTID=replication.MariadbGTID'}
 runs['gtid-maria-add'] = {'func': 'MariadbGTIDSet.AddGTID', 'ifacetag': 'replication.GTID=replication.MariadbGTID'}
 
 props['C18'] = {
     'level': 'other',
-    'explanation': "Partial, by contract on the real code. Decided for all inputs: membership (Mysql56GTIDSet.ContainsGTID) agrees with the set-of-pairs model — for every set whose interval list for the GTID's server id is in canonical form (non-empty intervals, pairwise ordered and disjoint) and every Mysql56GTID, the result is true exactly if some interval of that server id covers the sequence number (loop invariant over the interval list of unbounded length; the map is a symbolic total function from 16-byte ids to slices); interval.contains is interval inclusion. Not decided: Contains / Equal / AddGTID / String (Go map iteration over an unbounded key set, sort.Sort with an interface-typed comparator and copy-on-add through nested appends are outside the generator's subset; no bounded stand-in was built), hence neither superset / equality agreement nor canonical-form preservation and non-aliasing of AddGTID.",
-    'claim': "Membership test of MySQL 5.6 GTID sets agrees with the mathematical model for all canonical sets (deductive, unbounded); superset / equality / AddGTID not covered.",
+    'explanation': "Partial, by contract on the real code. Decided for all inputs: membership (Mysql56GTIDSet.ContainsGTID) agrees with the set-of-pairs model — for every set whose interval list for the GTID's server id is in canonical form (non-empty intervals, pairwise ordered and disjoint) and every Mysql56GTID, the result is true exactly if some interval of that server id covers the sequence number (loop invariant over the interval list of unbounded length; the map is a symbolic total function from 16-byte ids to slices); interval.contains is interval inclusion. AddGTID never alters the set it was added to: no execution stores into memory that existed before the call (frame obligation at every store and every in-place append, map iteration modelled as 'an arbitrary present key not produced before'), and no index can go out of range. Not decided: Contains / Equal / String, and that AddGTID's result is the union in canonical form (functional contracts over Go map iteration with nested interval scans were not written; no bounded stand-in was built).",
+    'claim': "Membership test of MySQL 5.6 GTID sets agrees with the mathematical model for all canonical sets; AddGTID never writes the receiver's memory (frame) and is panic-free; superset / equality / AddGTID's result not covered.",
     'note': "Trusted: govc (incl. its map model: a map value is a total function with a domain predicate), solvers. The dynamic type of the GTID argument is fixed to Mysql56GTID by the unit (other types return false on the first line of the function).",
     'technique': GEN,
-    'runs': ['gtid-iv-contains', 'gtid-56-containsgtid'],
+    'runs': ['gtid-iv-contains', 'gtid-56-containsgtid', 'gtid-56-add'],
     'assumptions': ["the GTID argument has dynamic type Mysql56GTID (unit parameter -ifacetag)"],
 }
 props['C19'] = {
